@@ -343,7 +343,6 @@ func runCase(c Case, o runOpts) (*hx.Failure, *report) {
 			pt.Outcome = "success-complete"
 			if w.Fired {
 				pt.Outcome = "success-complete-fault-swallowed"
-				rep.Labels = append(rep.Labels, "swallowed:"+where)
 			}
 			f = s.judgeSuccess(c, lab, where, k, w, res, evs, post, prim, twinOK, res0, twinPost, ev0, twinLog, twinStruct, twinEventsReadable, pre)
 			if f != nil {
@@ -356,6 +355,9 @@ func runCase(c Case, o runOpts) (*hx.Failure, *report) {
 			}
 			if f != nil && final {
 				f.Sig = "C05/poisoned-after-failures/" + lab
+			}
+			if f == nil && w.Fired {
+				rep.Labels = append(rep.Labels, "swallowed-harmlessly:"+where)
 			}
 			if hx.FaultDiffKV(pre, post, 1) != "" || f != nil {
 				drop()
@@ -704,10 +706,14 @@ func record(rep *report) {
 	}
 }
 
-var (
-	casesTotal, casesFull int
-	kSum, kMax            int
-)
+var casesTotal, casesFull, kSum, pointsSum int
+
+func sweepText(o runOpts) string {
+	if o.MaxPoints == 0 {
+		return "every k = 1..K for every case (exhaustive per case), plus one fault-free re-execution on the node that saw all the failures"
+	}
+	return fmt.Sprintf("every k = 1..K for cases with K <= %d, else %d positions stratified over storage-operation types (always first/last write, their neighbours, commit), plus one fault-free re-execution on the node that saw all the failures", o.MaxPoints, o.MaxPoints)
+}
 
 func TestC05(t *testing.T) {
 	o := tierOpts()
@@ -726,25 +732,30 @@ func TestC05(t *testing.T) {
 			f, rep = runCase(c, o)
 			return f
 		})
-		record(rep)
 		if rep != nil && rep.Swept > 0 {
 			casesTotal++
+			if casesTotal <= 2 {
+				rec.Sample(replayCase{c, o.MaxPoints})
+			}
 			if rep.Full {
 				casesFull++
 			}
 			kSum += rep.K
-			if rep.K > kMax {
-				kMax = rep.K
-			}
-			if casesTotal <= 2 {
-				rec.Sample(c)
-			}
+			pointsSum += rep.Swept
+			// only summable numbers: the driver adds numeric extras over the shards
 			rec.Extra["cases"] = casesTotal
 			rec.Extra["cases_swept_over_every_k"] = casesFull
-			rec.Extra["storage_ops_per_case_mean"] = kSum / casesTotal
-			rec.Extra["storage_ops_per_case_max"] = kMax
-			rec.Extra["exhaustive"] = casesFull == casesTotal
+			rec.Extra["cases_swept_over_a_stratified_sample_of_k"] = casesTotal - casesFull
+			rec.Extra["storage_operations_of_all_cases"] = kSum
+			rec.Extra["fault_positions_tried"] = pointsSum
+			rec.Extra["sweep"] = sweepText(o)
+			if o.MaxPoints == 0 && hx.EnvInt("VERIF_SHARD", 0) == 0 {
+				// every shard runs with the same bound, so the claim holds for all of them; it is
+				// written by one shard only because the driver sums numeric (and boolean) extras
+				rec.Extra["exhaustive"] = true
+			}
 		}
+		record(rep)
 		if rep != nil {
 			// every known signature hit during the sweep is counted, not only the returned one
 			for sig, kf := range rep.KnownHits {
